@@ -14,18 +14,22 @@ Executable; imports other `Core` files only.  Mirrors `searchlite-http/src/lib.r
   any library call; blank lines skipped; no document at all ⇒ `200 {"queued":0}` without a
   writer); `/bulk` (`bulk_ingest`) parses the body, rejects an empty `docs` array and non-object
   elements before any library call;
-* both then call `writer.add_document` per document, in order; on the **first** `Err` they call
-  `writer.rollback()` — which clears the handle's queue and truncates the **whole** log
-  (`IndexWriter::rollback`: `pending_ops.clear(); wal.truncate()`), including operations queued
-  and acknowledged by earlier requests — and answer 400 `add_failed`;
+* both then call `writer.add_documents(&docs)` (`api/writer.rs`): **every** document is validated
+  first (`validate_document`, `doc_id_from_document`); if one is rejected nothing is appended and
+  the handler answers 400 `add_failed`; otherwise one record per document is appended, in order.
+  (Should an append fail, the call truncates the log back to its length at the start of the call
+  and drops its own queue entries — `rollbackOwn` below; not reachable without storage faults,
+  which are C03's subject, so `denote` never emits it.)
 * `/delete` (`delete_documents`) rejects an empty `ids` array and validates **all** ids
   (`validate_ids`) before the writer is created, then `writer.delete_documents(&ids)`;
 * `/commit` = new writer, `commit()`; `/compact` = `index.compact()`; `/refresh` and `/search` only
   open a reader.
 
-`repaired = true` is the denotation after the expected repair (a failing request removes only
-the records it appended itself: `wal.truncate_to(len at request start)`, here `rollbackOwn`);
-`repaired = false` is the code as it is.  The harness passes one constant.
+`repaired = true` is the code as it exists (since /repo commit 69e89dd).  `repaired = false` is
+the **legacy** handler kept as documentation of the original defect: `add_document` per document
+and, on the first `Err`, `writer.rollback()` — which clears the handle's queue and truncates the
+**whole** log (`IndexWriter::rollback`: `pending_ops.clear(); wal.truncate()`), including
+operations queued and acknowledged by earlier requests.  The harness passes one constant.
 
 States are those of `Core/Contents` (spec state `Spec.St`: committed map + shared log + handles;
 mechanism state `St`: segments, tombstones, cached live maps).  The service always uses the
@@ -59,12 +63,12 @@ def Req.isCommit {ι δ : Type} : Req ι δ → Bool
   | .commit => true
   | _ => false
 
-/-- library calls plus the one call the repair introduces -/
+/-- library calls plus the batch-local undo of `add_documents` -/
 inductive HCall (ι δ : Type) where
   | lib (c : Call ι δ)
-  /-- repaired code only: drop the last `k` records of the log — the ones this handle appended
-  during the current request (`truncate_to(length at request start)`; the log is append-only and
-  the request holds `writer_lock`) — and the last `k` entries of the handle's queue -/
+  /-- the error branch of `add_documents`: drop the last `k` records of the log — the ones this
+  call appended (`truncate_to(length at the start of the call)`; the log is append-only and the
+  request holds `writer_lock`) — and the last `k` entries of the handle's queue -/
   | rollbackOwn (h k : Nat)
 deriving Repr
 
@@ -81,13 +85,18 @@ def opCall {ι δ : Type} (h : Nat) : Op ι δ → Call ι δ
   | .add i d => .add h i d 1
   | .del i => .del h i 1
 
-/-- `/add` with at least one document, `/bulk` with a non-empty array -/
+/-- `/add` with at least one document, `/bulk` with a non-empty array.  Code as it exists
+(`add_documents`): validation of the whole batch first, appends only when every document passed.
+Legacy: appends up to the first rejected document, then `rollback()` of the whole log. -/
 def ingest {ι δ : Type} (repaired : Bool) (ru : Rules ι δ) (h : Nat) (docs : List δ) :
     List (HCall ι δ) :=
   let r := firstOps ru docs
-  [.lib (.newWriter h)] ++ r.1.map (fun op => .lib (opCall h op)) ++
-    (if r.2 then [if repaired then .rollbackOwn h r.1.length else .lib (.rollback h)] else []) ++
-    [.lib (.dropWriter h)]
+  if repaired then
+    [.lib (.newWriter h)] ++ (if r.2 then [] else r.1.map (fun op => .lib (opCall h op))) ++
+      [.lib (.dropWriter h)]
+  else
+    [.lib (.newWriter h)] ++ r.1.map (fun op => .lib (opCall h op)) ++
+      (if r.2 then [.lib (.rollback h)] else []) ++ [.lib (.dropWriter h)]
 
 /-- the library calls a request performs, in order, through writer handle `h` -/
 def denote {ι δ : Type} (repaired : Bool) (ru : Rules ι δ) (h : Nat) : Req ι δ → List (HCall ι δ)
@@ -110,7 +119,8 @@ def ackedOps {ι δ : Type} (ru : Rules ι δ) : Req ι δ → List (Op ι δ)
   | .delete ids => if ids.isEmpty || !ids.all ru.idOk then [] else ids.map .del
   | _ => []
 
-/-- does the request reach `writer.rollback()`? -/
+/-- is the request rejected by the library (`add_documents` returns `Err`, 400 `add_failed`; the
+legacy handler reached `writer.rollback()` here)? -/
 def rollsBack {ι δ : Type} (ru : Rules ι δ) : Req ι δ → Bool
   | .add docs => (firstOps ru docs).2
   | .bulk docs => (firstOps ru docs).2
@@ -204,8 +214,8 @@ structure Flat (ι δ : Type) where
   pending : List (Op ι δ)
 deriving Repr
 
-/-- what one request does to (committed, pending).  Current code: a request that reaches
-`rollback` empties `pending`; repaired: it leaves it alone. -/
+/-- what one request does to (committed, pending).  Legacy handler: a request that reached
+`rollback` emptied `pending`; the code as it exists leaves it alone. -/
 def flatStep {ι δ : Type} [DecidableEq ι] (repaired : Bool) (ru : Rules ι δ) (proj : δ → δ)
     (f : Flat ι δ) (r : Req ι δ) : Flat ι δ :=
   if r.isCommit then { committed := f.pending.foldl (Spec.apply proj) f.committed, pending := [] }
@@ -221,7 +231,8 @@ def flatRun {ι δ : Type} [DecidableEq ι] (repaired : Bool) (ru : Rules ι δ)
 open SL.Doc in
 /-- the per-field loop of `Schema::validate_document`: a nested field is validated by
 `NestedField::validate` (not modelled here: the generator's schemas are flat; see C15), a
-declared flat field by `validate_field_value`, an undeclared name is skipped -/
+declared flat field by `validate_field_value`, the id field is skipped, any other name is
+rejected (`unknown field`) -/
 def fieldsValid (s : Schema String) : JO String → Bool
   | .nil => true
   | .cons k v t =>
@@ -230,7 +241,7 @@ def fieldsValid (s : Schema String) : JO String → Bool
      | none =>
        match s.findFlat k with
        | some l => flatOk l v
-       | none => true) && fieldsValid s t
+       | none => k == s.idField) && fieldsValid s t
 
 def blank (s : String) : Bool := s.toList.all SL.Frontend.isWs
 
